@@ -3,6 +3,7 @@
 package netpoll
 
 import (
+	"context"
 	"errors"
 	"sync/atomic"
 	"time"
@@ -182,10 +183,12 @@ func verifDeliverCount(op *FDOperator, vs [][]byte, name string, max int) {
 //  0: untimed reader (one call, n in 1..4) || poller (2 chunks of 1..4 bytes) || local Close
 //  1: untimed reader || poller (1 chunk, then peer hang-up)
 //  2: reader with read timeout, two successive calls || poller (2 chunks) || timer expiry (twice)
+//  3: as 1, with an OnDisconnect callback that waits for the application's reader to finish:
+//     the reader's wake-up must not depend on the callback having returned
 //
 //verif:po
 //verif:bounds reader: 1-2 successive calls needing n in [1,4]; poller: <= 2 chunks of 1..4 bytes; timer may expire twice; local close or peer hang-up; state revisits <= 3
-//verif:param 0 2
+//verif:param 0 3
 //verif:loop 40
 //verif:poloop 3
 //verif:potimeout 400
@@ -201,6 +204,12 @@ func verifHarness_C07_wake(sc int) {
 		vt = verifTimerOf(c.readTimer)
 		c.readTimeout = time.Second
 	}
+	readerGone := make(chan struct{}, 1)
+	if sc == 3 {
+		c.onDisconnectCallback.Store(OnDisconnect(func(ctx context.Context, conn Connection) {
+			<-readerGone
+		}))
+	}
 	n1 := verifNondetInt("n1")
 	verifAssume(n1 >= 1)
 	verifAssume(n1 <= 4)
@@ -213,6 +222,9 @@ func verifHarness_C07_wake(sc int) {
 			verifReadCall(c, n2, vt, "C07/call2")
 		}
 		atomic.StoreInt32(&verifK.readerDone, 1)
+		if sc == 3 {
+			readerGone <- struct{}{}
+		}
 		verifReach("reader-done")
 	})
 	switch sc {
@@ -222,7 +234,7 @@ func verifHarness_C07_wake(sc int) {
 			verifDeliverCount(op, vs, "chunk2", 4)
 		})
 		verifThread("closer", func() { c.Close() })
-	case 1:
+	case 1, 3:
 		verifThread("poller", func() {
 			if op.do() {
 				k := verifNondetInt("chunk1")
